@@ -189,6 +189,83 @@ def h_history(ctx, skeleton=(), leverage=2, mode='cross', nsym=1):
     ctx.event('history-complete')
 
 
+def h_step(ctx, pos='long', nbuy=1, nsell=1, op=('X', 'buy', 0), leverage=2):
+    """H-STEP: one operation from an ARBITRARY valid pre-state (inductive step - covers histories of any length).
+    pre-state: wallet w0, position (flat / long q0 @ e0 / short q0 @ e0), current price, nbuy + nsell resting non-reduce-only orders with
+    symbolic quantities and prices, written into the real objects (the resting orders through real submissions while the wallet is
+    temporarily huge, so that nothing is rejected and no constraint links them to w0; position fields directly).
+    op: ('X', side, k) execute resting order k of that side | ('C', side, k) cancel it |
+        ('N', side, type, reduce_only) submit a new order and, if accepted, execute it"""
+    from jesse.exceptions import InsufficientMargin
+    s = SYMS[0]
+    fee = ctx.real('fee', 0, 0.01)
+    w0 = ctx.real('w0', 1, 100000)
+    cfg = S.config_dict('futures', leverage=leverage, mode='cross', fee=fee, balance=1e12)
+    api = ApiSession(cfg, symbols=(s,), price0=100.0)
+    ex = api.exchange
+    rest = {'buy': [], 'sell': []}
+    for side, n in (('buy', nbuy), ('sell', nsell)):
+        for i in range(n):
+            q = ctx.real('r%s%d_q' % (side[0], i), 0.001, 100)
+            pr = ctx.real('r%s%d_p' % (side[0], i), 1, 1000)
+            rest[side].append(api.submit(s, side, 'LIMIT', q, pr, False))
+    p = api.positions[s]
+    cur = ctx.real('cur', 1, 1000)
+    model = MarginModel(w0, fee, leverage, [s])
+    if pos != 'flat':
+        q0 = ctx.real('q0', 0.001, 100)
+        e0 = ctx.real('e0', 1, 1000)
+        p.qty = q0 if pos == 'long' else -q0
+        p.previous_qty = 0
+        p.entry_price = e0
+        p.opened_at = api.store.app.time
+        model.q[s], model.e[s] = p.qty, e0
+    p.current_price = cur
+    ex.assets[ex.settlement_currency] = w0
+    curd = {s: cur}
+    compare(ctx, api, model, curd, 'pre-state')
+    ctx.event('pre-state-' + pos)
+    if op[0] in ('X', 'C'):
+        o = rest[op[1]][op[2]]
+        if op[0] == 'C':
+            o.cancel()
+        else:
+            api.set_price(s, o.price)
+            curd[s] = o.price
+            api.tick()
+            eff = model.fill(ctx, s, o.qty, o.price, o.reduce_only)
+            o.execute()
+            ctx.event('effect-' + eff)
+    else:
+        side, typ, ro = op[1], op[2], bool(op[3])
+        if ro and pos == 'flat':
+            ctx.event('illegal-reduce-only-skipped')
+            return
+        q = ctx.real('nq', 0.001, 100)
+        pr = ctx.real('np', 1, 1000) if typ != 'MARKET' else cur
+        Q = q if side == 'buy' else -q
+        before = model.margin(curd, resting_of(api))
+        try:
+            o = api.submit(s, side, typ, q, pr, ro)
+            raised = False
+        except InsufficientMargin:
+            raised = True
+        should = False if ro else (_abs(Q * pr) / leverage > before)
+        ctx.prove(should if raised else Not(should), 'C03:rejected-iff-notional-over-leverage-exceeds-margin', {'after': 'step:' + str(op)})
+        if raised:
+            ctx.event('rejected-submission')
+            return
+        compare(ctx, api, model, curd, 'step-submit:' + str(op))
+        api.set_price(s, o.price)
+        curd[s] = o.price
+        api.tick()
+        eff = model.fill(ctx, s, o.qty, o.price, o.reduce_only)
+        o.execute()
+        ctx.event('effect-' + eff)
+    compare(ctx, api, model, curd, 'step:' + str(op))
+    ctx.event('step-complete')
+
+
 def skeletons(length, nsym=1, types=('LIMIT', 'MARKET')):
     """all legal skeletons of exactly `length` operations (first op is a submit)"""
     out = []
@@ -222,7 +299,7 @@ def h_bundle(ctx, skeletons_list=(), leverage=2, mode='cross', nsym=1):
     h_history(ctx, skeleton=skeletons_list[idx], leverage=leverage, mode=mode, nsym=nsym)
 
 
-JOBFN = {'h_history': h_history}
+JOBFN = {'h_history': h_history, 'h_step': h_step}
 
 
 def _jobs(tier):
@@ -266,6 +343,21 @@ def _jobs(tier):
         if True:
             for s in skeletons(4, 1, types=('LIMIT',)):
                 jobs.append(Job('hist_L%d_%s' % (L, _name(s)), h_history, {'skeleton': s, 'leverage': L, 'mode': 'cross', 'nsym': 1}))
+    # H-STEP: one operation from an arbitrary pre-state
+    for L in ((2,) if tier == 'quick' else (1, 3, 10, 50, 125)):
+        for pos in ('flat', 'long', 'short'):
+            for (nb, ns) in (((1, 1),) if tier == 'quick' else ((0, 0), (1, 1), (2, 1), (1, 2))):
+                ops = []
+                for side, n in (('buy', nb), ('sell', ns)):
+                    for k in range(n):
+                        ops += [('X', side, k), ('C', side, k)]
+                for side in ('buy', 'sell'):
+                    for typ in ('LIMIT', 'MARKET'):
+                        for ro in (0, 1):
+                            ops.append(('N', side, typ, ro))
+                for op in ops:
+                    jobs.append(Job('step_L%d_%s_%d%d_%s' % (L, pos, nb, ns, ''.join(str(x)[0] for x in op)), h_step,
+                                    {'pos': pos, 'nbuy': nb, 'nsell': ns, 'op': list(op), 'leverage': L}))
     for j in jobs:
         j.opts.update({'nlsat_fallback': True, 'prove_timeout_ms': 15000})
     return jobs
@@ -296,7 +388,7 @@ def setup(tier, seed):
         'stubs': list(jstubs.INSTALLED),
         'assumptions': ['floats as reals', 'legal histories per the quantifier (reduce-only only against an open position; rejected submission ends the history)',
                         'the set of resting orders is taken from the real order statuses (the strategy layer cancels everything on close)'],
-        'must_reach': ['C03:available-margin', 'C03:rejected-iff-notional-over-leverage-exceeds-margin', 'effect-open', 'effect-increase',
+        'must_reach': ['step-complete', 'pre-state-long', 'pre-state-short', 'pre-state-flat', 'C03:available-margin', 'C03:rejected-iff-notional-over-leverage-exceeds-margin', 'effect-open', 'effect-increase',
                        'effect-reduce', 'effect-close', 'effect-flip', 'rejected-submission'],
     }
 
@@ -306,7 +398,8 @@ def signature(v):
 
 
 def make_witness(v):
-    return {'fn': 'h_history', 'kwargs': v['bounds'], 'label': v['label'], 'model': v['model'], 'info': v.get('info')}
+    fn = 'h_step' if v['job'].startswith('step_') else 'h_history'
+    return {'fn': fn, 'kwargs': v['bounds'], 'label': v['label'], 'model': v['model'], 'info': v.get('info')}
 
 
 def replay(w):
